@@ -46,6 +46,10 @@ def shards(tier, seed):
     out = [{"name": f"hist{i}", "kind": "hist", "i": i, "count": cnt, "budget_s": 100 if tier == "quick" else 1500}
            for i in range(NSHARDS)]
     out.append({"name": "repotests", "kind": "repotests", "i": 0, "budget_s": 300, "cov": False})
+    # the same kind of histories under `python -O`, restricted to calls the documentation allows (plus the refusals the library
+    # raises explicitly): nothing may depend on the side effects of an assert statement
+    out += [{"name": f"opt{i}", "kind": "hist", "i": 100 + i, "count": 120 if tier == "quick" else 3000, "pyopt": True,
+             "budget_s": 100 if tier == "quick" else 1500} for i in range(4)]
     bound, tb = (4, 3) if tier == "quick" else (5, 4)
     out += [{"name": f"one{i}", "kind": "one", "i": i, "bound": bound, "typed_bound": tb,
              "budget_s": 200 if tier == "quick" else 3000} for i in range(NSHARDS)]
@@ -56,9 +60,12 @@ def gen_cases(spec, profile):
     rng = rng_for(spec["seed"], profile, spec["i"])
     for j in range(spec["count"]):
         typed = rng.random() < 0.25
-        yield {"seed": rng.randrange(10**9), "profile": profile, "flavour": rng.choice(hist.FLAVOURS),
-               "idconf": rng.choice(["default", "default", "callback", "subclass"]), "typed": typed,
-               "steps": rng.choice([5, 10, 20, 30, 40]), "hostile": True, "allow_unspec": True}
+        case = {"seed": rng.randrange(10**9), "profile": profile, "flavour": rng.choice(hist.FLAVOURS),
+                "idconf": rng.choice(["default", "default", "callback", "subclass"]), "typed": typed,
+                "steps": rng.choice([5, 10, 20, 30, 40]), "hostile": True, "allow_unspec": True}
+        if spec.get("pyopt"):
+            case.update(pyopt=True, valid_only=True, hostile=False, allow_unspec=False)
+        yield case
 
 
 def run_repotests(spec, res):
